@@ -612,7 +612,7 @@ def m_encoding(rng, env, seed):
 FRAMING_KINDS = ['no_cl', 'cl_negative', 'cl_minus1', 'cl_nonnumeric', 'cl_small', 'cl_large', 'cl_dup', 'cl_and_te', 'cl_empty', 'cl_plus', 'cl_huge',
                  'chunked_ok', 'chunk_trunc_data', 'chunk_trunc_size', 'chunk_trunc_crlf', 'chunk_no_crlf', 'chunk_neg', 'chunk_overlong',
                  'chunk_ext_short', 'chunk_ext_long', 'chunk_bad_hex', 'chunk_no_last', 'chunk_only_eof', 'chunk_lf_only', 'chunk_trailer', 'chunk_huge_size',
-                 'chunk_unterminated_size',
+                 'chunk_unterminated_size', 'chunk_size_line_70k',
                  'te_unknown', 'te_list', 'ce_unknown', 'ce_corrupt', 'ce_gzip_ok', 'ce_lz4_ok', 'ce_nobody', 'ce_upper', 'ce_truncated', 'ce_bomb',
                  'expect100', 'http10', 'http09', 'http2', 'method', 'many_headers', 'huge_header', 'pipelined', 'trunc_headers', 'conn_close',
                  'no_ct', 'weird_ct', 'bare_lf', 'header_fold', 'accept_q0', 'accept_garbage', 'lowercase_method', 'trunc_request_line']
@@ -687,6 +687,8 @@ def m_framing(rng, env, seed, kind=None):
         raw = req([('Transfer-Encoding', 'chunked')], b'%x\r\n' % n + xml + b'\r\n0\r\nX-Trailer: 1\r\n\r\n')
     elif kind == 'chunk_unterminated_size':
         raw = req([('Transfer-Encoding', 'chunked')], rng.choice([b'1', b'a', b'0']) * rng.choice([17, 300, 70000]) + rng.choice([b'', b'\r\n' + xml + b'\r\n0\r\n\r\n']))
+    elif kind == 'chunk_size_line_70k':
+        raw = req([('Transfer-Encoding', 'chunked')], b'0' * 70000 + b'1\r\nX\r\n0\r\n\r\n')
     elif kind == 'te_unknown':
         raw = req([('Transfer-Encoding', rng.choice(['gzip', 'identity', 'chunked ', 'x', 'CHUNKED'])), ('Content-Length', str(n))], xml)
     elif kind == 'te_list':
@@ -898,7 +900,7 @@ def run_case(env: Env, ctx, role, raw, info, seed_name):
                     {**detail, 'spin': res.spin, 'reads_trace': res.trace[-8:]})
         outcome.append('spin')
     ctx.count('monitor.step_budget_checked')
-    if res.max_run1 > 300:
+    if res.max_run1 > 20000:
         ctx.witness('chunk.size_line_unbounded', f'{res.max_run1} consecutive 1-byte reads: the scan for the end of a chunk-size line is not bounded', detail)
     if res.unbounded_reads:
         ctx.witness('framing.negative_content_length_reads_to_eof',
@@ -958,9 +960,9 @@ def run_case(env: Env, ctx, role, raw, info, seed_name):
                         {**detail, 'exception': repr(m['exc'])[:300]})
             outcome.append('mw_escape')
             continue
-        status, reason, body = m['ret']
-        if m['kind'] != 'post':
+        if m['ret'] is None or m['kind'] != 'post':   # (None: aborted by the step budget)
             continue
+        status, reason, body = m['ret']
         body = body if isinstance(body, bytes) else (body or '').encode('utf-8')
         if status >= 400:
             ok, why = is_fault_envelope(body)
